@@ -1017,3 +1017,24 @@ def oracle(c, impl):
         if m:
             return m
     return None
+
+
+
+# ------------------------------------------------------------------ WP-T3: translation layer (source -> Gallina)
+# An ADDITIONAL tie (DESIGN 10.3): harness/gen_src.py (suite 'C03') translates the segment bookkeeping of lentil/plane.py (_plane_slice through helper.boundary_slice, helper.slice_offset, Plane.shape, Plane.size)
+# from the CURRENT source text into coq/theories/Gen/SegmentSrc.v; Proofs/SegmentSrcP.v proves every translated term equal to the model for
+# all integers; Properties/C03Src.v states it.  Policy: a function the translator refuses is only reported; a
+# translated function whose equivalence lemma no longer compiles is compared with the model mirror on sampled points,
+# an exhaustive small box and random points - a found disagreement is a VIOLATION with that witness (replayable: op
+# 'src'), none found is reported as unproved.  The build of C03Src happens here, never in COQ_TARGETS.
+def extra(tier, rng):
+    from .. import gen_src as G
+    return G.run_layer('C03', ID, tier, rng, C)
+
+
+def _wrap_src_replay():
+    from .. import gen_src as G
+    return G.wrap_replay(run_impl, oracle, C)
+
+
+run_impl, oracle = _wrap_src_replay()
